@@ -26,7 +26,7 @@ at the panic point):
 * `reads_refuse_after_propagation_panic`, `reads_refuse_after_propagation_phase_panic` — after such a
   panic with status `Stabilising` every observer read is `Err(CurrentlyStabilising)`.
 * `poisoned_forever`, `poisoned_write_parks`, `poisoned_values_parked`, `reads_refuse_forever` — no
-  sequence of `writeVar`/`subscribe`/`unsubscribe`/`disallowFutureUse`/`elabInstr`/`setMaxHeightAllowed`
+  sequence of `writeVar`/`subscribe`/`unsubscribe`/`disallowFutureUse`/`elabInstr`/`elabInstrM`/`setMaxHeightAllowed`
   calls (each may panic and be caught) un-poisons the state; `stabilise` keeps refusing; in a state
   poisoned with `Stabilising` a write only parks the value, no var cell's `value` ever changes again,
   and every read keeps refusing.
@@ -154,7 +154,8 @@ example : ((expertInvalidate 10 1).run.run (exGraph 0 0)).2.status = .notStabili
 
 /-- Recomputation — `recompute`, `recompute_one`, value changes, `child_changed`, the effects of user
 closures (`runEffects`: var writes, reads, nested `stabilise` attempts, expert operations, user
-panics), template elaboration in bind bodies — never writes the status. -/
+panics), template elaboration in bind bodies (including memoised calls, the incremental-map operators and
+the per-key driver) — never writes the status. -/
 theorem status_frame_recompute (env : Env) (fuel : Nat) :
     (∀ n, Keeps (recompute env fuel n)) ∧
     (∀ n, Keeps (recomputeOne env fuel n)) ∧
@@ -164,9 +165,15 @@ theorem status_frame_recompute (env : Env) (fuel : Nat) :
     (∀ n o b1 b2, Keeps (maybeChangeValueManual env fuel n o b1 b2)) ∧
     (∀ p c ci o, Keeps (childChanged env fuel p c ci o)) ∧
     (∀ p c, Keeps (parentIterCanRecomputeNow p c)) ∧
-    (∀ tp v, Keeps (elabTemplate tp v)) ∧
+    (∀ tp v, Keeps (elabTemplate env tp v)) ∧
     (∀ loc v i, Keeps (elabInstr loc v i)) ∧
-    Keeps tick :=
+    Keeps tick ∧
+    (∀ loc v i, Keeps (elabInstrM env loc v i)) ∧
+    (∀ m key, Keeps (memoCall env m key)) ∧
+    (∀ tp v init, Keeps (elabTemplateBase tp v init)) ∧
+    (∀ op newMap, Keeps (perKeyDriver env fuel op newMap)) ∧
+    (∀ e dv sv, Keeps (expertValue env e dv sv)) ∧
+    (∀ g n σ old x new did, Keeps (withOldEvents env g n σ old x new did)) :=
   ⟨fun n => FPres.keeps fun t => recompute_fr t env fuel n,
    fun n => FPres.keeps fun t => recomputeOne_fr t env fuel n,
    fun effs arg => FPres.keeps fun t => runEffects_fr t env fuel effs arg,
@@ -175,9 +182,15 @@ theorem status_frame_recompute (env : Env) (fuel : Nat) :
    fun n o b1 b2 => FPres.keeps fun t => maybeChangeValueManual_fr t env fuel n o b1 b2,
    fun p c ci o => FPres.keeps fun t => childChanged_fr t env fuel p c ci o,
    fun p c => FPres.keeps fun t => parentIterCanRecomputeNow_fr t p c,
-   fun tp v => FPres.keeps fun t => elabTemplate_fr t tp v,
+   fun tp v => FPres.keeps fun t => elabTemplate_fr t env tp v,
    fun loc v i => FPres.keeps fun t => elabInstr_fr t loc v i,
-   FPres.keeps fun t => tick_fr t⟩
+   FPres.keeps fun t => tick_fr t,
+   fun loc v i => FPres.keeps fun t => elabInstrM_fr t env loc v i,
+   fun m key => FPres.keeps fun t => memoCall_fr t env m key,
+   fun tp v init => FPres.keeps fun t => elabTemplateBase_fr t tp v init,
+   fun op newMap => FPres.keeps fun t => perKeyDriver_fr t env fuel op newMap,
+   fun e dv sv => FPres.keeps fun t => expertValue_fr t env e dv sv,
+   fun g n σ old x new did => FPres.keeps fun t => withOldEvents_fr t env g n σ old x new did⟩
 
 /-- a user closure that panics, run while stabilising: the status stays `Stabilising` -/
 example : panicOf ((runEffects exEnv 10 [.setVar 0 (.int 2), .panic]).run.run
@@ -213,7 +226,8 @@ example : ((writeVar 0 (fun _ => .int 7)).run.run exHandlerPanic).2.status
 
 /-- The pieces of `stabilise` other than the three status writes: `add_new_observers`,
 `unlink_disallowed_observers`, the heap drain (together: `propagate`), the part of `stabilise_end`
-before the handlers (`stabiliseEndPrepare`), `run_all` and the handler loop (`runHandlers`). -/
+before the handlers (`stabiliseEndPrepare`), `run_all` and the handler loop followed by the collection
+of the weak memo tables (`runHandlers`). -/
 theorem status_frame_phases (env : Env) (fuel : Nat) :
     Keeps (addNewObservers env fuel) ∧
     Keeps (unlinkDisallowedObservers fuel) ∧
@@ -253,7 +267,8 @@ theorem stabilise_phases (env : Env) (fuel : Nat) :
   Poison.stabilise_phases env fuel
 
 /-- `stabilise_end` is: everything before the handlers (`stabiliseEndPrepare`: round number, deferred
-var writes, dead vars, the handler queue), the status write, the handler loop, the status write. -/
+var writes, dead vars, the handler queue), the status write, the handler loop and the (pure, panic-free)
+collection of the weak memo tables (`runHandlers`), the status write. -/
 theorem stabiliseEnd_phases (env : Env) (fuel : Nat) :
     stabiliseEnd env fuel = (do
       let queue ← stabiliseEndPrepare env
@@ -405,8 +420,8 @@ example : (exPropPanic.nodeD 0).value = some (.int 1) ∧
 /-! ## 5. poisoned forever -/
 
 /-- From a poisoned state, whatever sequence of the other API calls is made — `writeVar`,
-`subscribe`, `unsubscribe`, `disallowFutureUse`, `elabInstr [] v i` (node creation),
-`setMaxHeightAllowed`; each may return or panic and be caught (`runCalls` continues from the state at
+`subscribe`, `unsubscribe`, `disallowFutureUse`, `elabInstr [] v i` / `elabInstrM env [] v i` (node
+creation, the latter including calls of memoised functions), `setMaxHeightAllowed`; each may return or panic and be caught (`runCalls` continues from the state at
 the panic) — the status is unchanged, so the state is still poisoned and `stabilise` still panics at
 its status assertion without touching anything. -/
 theorem poisoned_forever (env : Env) (fuel : Nat) (s : State) (h : s.status ≠ .notStabilising)
